@@ -175,7 +175,22 @@ def monC06birth (o : Obs) : List String :=
         if ageMs o o.post e = ageMs o o.pre e0 then none
         else some s!"the age of entry {k} changed from {ageMs o o.pre e0} to {ageMs o o.post e} ms without a store of {k}")
 
-def monC06 (_g : Ghost) (o : Obs) : List String := monC06core o ++ (if o.cfg.ttl.isSome then monC06birth o else [])
+/-- a store starts a NEW entry: whatever is held under the stored key afterwards has age (about) zero — also when
+    the key was already cached (a refresh must not inherit the birth time of the entry it replaces) -/
+def monC06fresh (o : Obs) : List String :=
+  match storedKey o.op with
+  | none => []
+  | some (k, v) =>
+    match lookup k o.post.store with
+    | none => []
+    | some e =>
+      let age := ageMs o o.post e
+      if e.val ≠ v then [] else
+      -- sync ages are read back a few µs..ms after the store; async ages are whole seconds
+      if age < 1000 then [] else [s!"entry {k} was just stored but its age is {age} ms (birth time not reset by the store)"]
+
+def monC06 (_g : Ghost) (o : Obs) : List String :=
+  monC06core o ++ (if o.cfg.ttl.isSome then monC06birth o else []) ++ monC06fresh o
 
 /-! C07: FIFO evicts the oldest store, LRU the least recently used (entry limit or memory pressure). -/
 def stampOf (stamps : List (String × Nat)) (k : String) : Nat := (alookup k stamps).getD 0
